@@ -107,3 +107,99 @@ def nontrivial_key(case, impl_line):
     if len(pop) < 2 or not unsorted:
         return None
     return hash(impl_line)
+
+
+CANON_KINDS = ['CHARACTERISTIC', 'MEASUREMENT', 'AXIS_PTS', 'INSTANCE', 'BLOB', 'COMPU_METHOD', 'COMPU_TAB', 'COMPU_VTAB',
+               'COMPU_VTAB_RANGE', 'TYPEDEF_STRUCTURE', 'TYPEDEF_CHARACTERISTIC', 'TYPEDEF_MEASUREMENT', 'TYPEDEF_AXIS', 'TYPEDEF_BLOB',
+               'FRAME', 'FUNCTION', 'GROUP', 'RECORD_LAYOUT', 'TRANSFORMER', 'UNIT']
+
+
+def extra_stage(v, tier, rng, impl):
+    """whole documents (several modules, comments, IF_DATA, elements from the grammar generator): load, sort(), write.
+    Modules appear in the written file in alphabetical order, every module lists its elements grouped by kind in the
+    canonical kind order and alphabetically within a kind, the file loads again to the sorted model, a second sort() is
+    the identity."""
+    import random as _random
+    import docgen
+    from checks import docs
+    sp = docs.spec()
+    texts = []
+    for i in range(40 if tier == 'quick' else 3000):
+        opts = docgen.GenOptions(version=rng.choice(docs.VERSIONS), max_depth=rng.choice([3, 4]), max_repeat=rng.choice([2, 3, 4]),
+                                 p_optional=rng.choice([0.3, 0.6]), ifdata=rng.choice([None, 'unknown']), a2ml=rng.choice([None, None, 'simple']))
+        node = docgen.gen_tree(sp, _random.Random(rng.randrange(1 << 30)), opts)
+        docs.order_positions(node)      # position-restricted children in ascending order (the other case is a known finding of C01)
+        lay = docgen.Layout(mode=rng.choice(['canonical', 'random']), comments=rng.choice([None, 'block-level']))
+        text, _ = docgen.render(node, _random.Random(rng.randrange(1 << 30)), lay, sp)
+        texts.append(text)
+    out = fw.run_sharded([impl, 'SORTDOC'], [sx.enc([t]) for t in texts])
+    fails, multi, judged = [], 0, 0
+    for t, line in zip(texts, out):
+        why = None
+        if not line or line.startswith('DIED'):
+            why = 'process died in load / sort / write'
+        else:
+            a = sx.dec(line)
+            st = a[0].decode()
+            if st == 'NOLOAD':
+                continue
+            if st == 'PANIC':
+                why = 'panic in ' + a[1].decode()
+            else:
+                judged += 1
+                mods = [(bytes(m[0]), [(bytes(e[0]).decode(), bytes(e[1])) for e in m[1]]) for m in a[1]]
+                if len(mods) > 1:
+                    multi += 1
+                names = [m[0] for m in mods]
+                if names != sorted(names):
+                    why = 'the modules are not written in alphabetical order: %s' % [n.decode('utf-8', 'replace') for n in names]
+                for mname, els in mods:
+                    if why:
+                        break
+                    seq = [tg for tg, _ in els if tg in CANON_KINDS]
+                    groups = [tg for k_, tg in enumerate(seq) if k_ == 0 or seq[k_ - 1] != tg]
+                    if len(set(groups)) != len(groups):
+                        why = 'module %s: elements of one kind are not contiguous: %s' % (mname.decode('utf-8', 'replace'), groups)
+                    elif groups != [k_ for k_ in CANON_KINDS if k_ in groups]:
+                        why = 'module %s: kinds are not in the canonical order: %s' % (mname.decode('utf-8', 'replace'), groups)
+                    else:
+                        for k_ in groups:
+                            ns = [n for tg, n in els if tg == k_]
+                            if ns != sorted(ns):
+                                why = 'module %s: %s not in alphabetical order' % (mname.decode('utf-8', 'replace'), k_)
+                                break
+                if not why and not a[2]:
+                    why = 'the sorted file does not load'
+                if not why and not a[3]:
+                    mem = [bytes(x).decode('utf-8', 'replace') for x in a[5]]
+                    why = ('loading the sorted file gives a different model (modules in memory after sort: %s, written: %s)'
+                           % (mem, [n.decode('utf-8', 'replace') for n in names]))
+                if not why and not a[4]:
+                    why = 'sorting a second time changes something'
+        if why and len(fails) < 3:
+            fails.append({'payload': {'kind': 'SORTDOC', 'case': sx.enc([t]), 'text': t, 'why': why,
+                                      'stage': 'W (documents: load, sort, write, reload)'}})
+    v.coverage['sorted_documents'] = judged
+    v.coverage['sorted_documents_with_several_modules'] = multi
+    return fails
+
+
+def replay(r):
+    impl = fw.build_harness(release=False)
+    line = fw.run_single([impl, r['kind']], r['case'])
+    if r.get('kind') == 'SORTDOC':
+        print('text:', (r.get('text') or '')[:1500])
+        a = sx.dec(line) if line and not line.startswith('DIED') else None
+        print('answer:', sx.pretty(a)[:3] if a else line)
+        bad = a is None or a[0] != b'OK' or not (a[2] and a[3] and a[4])
+        if a and a[0] == b'OK':
+            names = [bytes(m[0]) for m in a[1]]
+            bad = bad or names != sorted(names)
+            print('modules written:', names, ' reload equal:', a[3], ' idempotent:', a[4])
+        print('oracle:', 'violated' if bad else 'holds (order of kinds not re-judged here)')
+        return 1 if bad else 0
+    why = oracle(sx.pretty(sx.dec(r['case'])), line)
+    print('case:', str(r.get('case_readable'))[:1500])
+    print('implementation:', line[:400])
+    print('oracle:', why or 'holds')
+    return 1 if why else 0
